@@ -18,7 +18,9 @@ Inductive tr_reader :=
 | TrCsv (t : tr_table)                            (* CSVFileReader on a file holding t *)
 | TrParquet (t : tr_table) (bl bl0 : list nat)    (* ParquetFileReader; oracle: lengths of the record batches
                                                      pyarrow's iter_batches(c, columns) delivers: bl when at
-                                                     least one existing column is projected, bl0 when none is *)
+                                                     least one existing column is projected, bl0 when none is
+                                                     (the reader itself never projects none for columns=[]:
+                                                     it reads the first column of the file and drops it) *)
 | TrMapped (r : tr_reader) (m : list (nat * nat)) (* ColumnMappedReader(r, {orig: new}) *)
 | TrJoined (rs : list tr_reader)                  (* JoinedTabularDataReader(rs) *)
 | TrComputed (r : tr_reader) (k : nat)            (* ComputedTabularDataReader(r, k, dtype, func) *)
@@ -171,12 +173,22 @@ Fixpoint tr_dedup (l : list nat) : list nat :=
   | x :: r => x :: filter (fun y => negb (Nat.eqb y x)) (tr_dedup r)
   end.
 
-(* enumerate(iter_batches(c)): df.index = df.index + i * chunk_size *)
-Fixpoint tr_pq_frames (c i : nat) (names : list nat) (batches : list (list (list Z))) : list ch_frame :=
+(* offset = 0; for batch in iter_batches(c): df.index = df.index + offset; offset += len(df)
+   (a running offset: batches may be shorter than chunk_size) *)
+Fixpoint tr_pq_frames (off : nat) (names : list nat) (batches : list (list (list Z))) : list ch_frame :=
   match batches with
   | [] => []
-  | b :: r => {| ch_index := seq (i * c) (length b); ch_names := names; ch_rows := b |}
-              :: tr_pq_frames c (S i) names r
+  | b :: r => {| ch_index := seq off (length b); ch_names := names; ch_rows := b |}
+              :: tr_pq_frames (off + length b) names r
+  end.
+
+(* which batch lengths pyarrow delivers for columns=cs (cs' = the known names among cs, repeated names once):
+   columns=[] is replaced by pf.schema.names[:1] (a file without columns: still the empty projection);
+   a non-empty list of unknown names only is passed on as it is: pyarrow ignores the names, empty projection *)
+Definition tr_pq_lens (names cs cs' : list nat) (bl bl0 : list nat) : list nat :=
+  match cs with
+  | [] => match names with [] => bl0 | _ :: _ => bl end
+  | _ :: _ => match cs' with [] => bl0 | _ :: _ => bl end
   end.
 
 (* ---------- get_column_names ---------- *)
@@ -196,12 +208,10 @@ Fixpoint tr_read (r : tr_reader) (cols : option (list nat)) : result ch_frame :=
   | TrFrame t =>                      (* self.df if columns is None else self.df[columns] *)
     let w := ch_whole (tb_names t) (tb_rows t) in
     match cols with None => Ok w | Some cs => ch_select EKey cs w end
-  | TrCsv t =>                        (* read_csv(usecols=columns)[columns]; usecols=[] parses no row *)
-    match cols with
-    | None => Ok (ch_whole (tb_names t) (tb_rows t))
-    | Some [] => Ok (ch_whole [] [])
-    | Some cs => ch_select EValue cs (ch_whole (tb_names t) (tb_rows t))
-    end
+  | TrCsv t =>                        (* read_csv(usecols=_usecols(columns))[columns]; columns=[] parses the first
+                                         column (usecols=[0]) and the selection drops it: all rows, no column *)
+    let w := ch_whole (tb_names t) (tb_rows t) in
+    match cols with None => Ok w | Some cs => ch_select EValue cs w end
   | TrParquet t _ _ =>                (* pq.read_table(columns=columns).to_pandas() *)
     let w := ch_whole (tb_names t) (tb_rows t) in
     match cols with None => Ok w | Some cs => ch_select EValue cs w end
@@ -255,18 +265,17 @@ Fixpoint tr_stream (r : tr_reader) (c : nat) (cols : option (list nat)) : tr_gen
          | None => (tr_csv_frames c (tb_names t) (tb_rows t), None)
          | Some cs =>
            if ch_known (tb_names t) cs
-           then (map (ch_sel cs)
-                     (tr_csv_frames c (tb_names t) (match cs with [] => [] | _ :: _ => tb_rows t end)), None)
+           then (map (ch_sel cs) (tr_csv_frames c (tb_names t) (tb_rows t)), None)
            else ([], Some EValue)
          end
   | TrParquet t bl bl0 =>
     if Nat.eqb c 0 then ([], Some EValue)
     else match cols with
-         | None => (tr_pq_frames c 0 (tb_names t) (ch_split_by bl (tb_rows t)), None)
+         | None => (tr_pq_frames 0 (tb_names t) (ch_split_by bl (tb_rows t)), None)
          | Some cs =>
            let cs' := tr_dedup (filter (fun x => ch_mem x (tb_names t)) cs) in
-           let batches := ch_split_by (match cs' with [] => bl0 | _ :: _ => bl end) (tb_rows t) in
-           (map (ch_sel cs') (tr_pq_frames c 0 (tb_names t) batches), None)
+           let batches := ch_split_by (tr_pq_lens (tb_names t) cs cs' bl bl0) (tb_rows t) in
+           (map (ch_sel cs') (tr_pq_frames 0 (tb_names t) batches), None)
          end
   | TrMapped r' m =>
     match cols with
